@@ -656,12 +656,37 @@ func c10r2(c *Ctx) {
 						}
 						// a VerifyHash whose second argument is the same signature (either the response expression or the stored field) must dominate the return
 						verified := false
+						// the stored value may be a local holding the signature (a validating helper's result): every
+						// host-derived definition of that local must be the verified expression
+						viaLocal := func(sig ast.Expr) bool {
+							id, isID := ast.Unparen(w.RHS).(*ast.Ident)
+							if !isID {
+								return false
+							}
+							n := 0
+							for _, d := range wholeDefs(f, f.ObjOf(id)) {
+								if d.RHS == nil {
+									if vs, ok := d.Stmt.(*ast.ValueSpec); ok && len(vs.Values) == 0 {
+										continue
+									}
+									return false
+								}
+								if !env.taint.Expr(f, d.RHS) {
+									continue
+								}
+								if !sameLvalue(f, sig, d.RHS) {
+									return false
+								}
+								n++
+							}
+							return n > 0
+						}
 						for _, call := range f.CallsTo(false, env.verifyFn) {
 							if len(call.Expr.Args) != 2 {
 								continue
 							}
 							sig := call.Expr.Args[1]
-							if !(sameLvalue(f, sig, w.RHS) || sameLvalue(f, sig, w.LHS)) {
+							if !(sameLvalue(f, sig, w.RHS) || sameLvalue(f, sig, w.LHS) || viaLocal(sig)) {
 								continue
 							}
 							if env.taint.Expr(f, call.Expr.Args[0]) && !hashOfLocal(env, call.Expr.Args[0]) {
